@@ -15,6 +15,14 @@ use std::num::NonZeroUsize;
 use std::sync::Arc;
 use std::time::Duration;
 
+/// Bumped by every change of the ring membership / host ids.
+static TOPO_VERSION: std::sync::atomic::AtomicU64 = std::sync::atomic::AtomicU64::new(0);
+
+fn ring_now() -> BTreeSet<[u8; 16]> {
+    let w = world::world();
+    w.cluster.nodes.iter().filter(|n| n.in_ring).map(|n| n.host_id).collect()
+}
+
 #[derive(Clone, Debug)]
 struct Plan {
     initial: usize,
@@ -64,6 +72,7 @@ pub fn run(req: &RunRequest) -> Value {
 
 async fn main(plan: Plan) -> Outcome {
     let mut out = Outcome::default();
+    TOPO_VERSION.store(0, std::sync::atomic::Ordering::SeqCst);
     let cfg = SessionCfg {
         contact_nodes: vec![0],
         pool: PoolSize::PerHost(NonZeroUsize::new(1).unwrap()),
@@ -109,6 +118,7 @@ async fn main(plan: Plan) -> Outcome {
                         w.cluster.nodes[n].up = true;
                         w.fault(Fault::Topology);
                         w.log(&format!("join node={n}"));
+                        TOPO_VERSION.fetch_add(1, std::sync::atomic::Ordering::SeqCst);
                         if with_event {
                             let ip = w.cluster.nodes[n].ip;
                             w.broadcast_event("TOPOLOGY_CHANGE", wire::body_event_topology("NEW_NODE", ip, 9042));
@@ -123,6 +133,7 @@ async fn main(plan: Plan) -> Outcome {
                         w.cluster.nodes[n].in_ring = false;
                         w.fault(Fault::Topology);
                         w.log(&format!("leave node={n}"));
+                        TOPO_VERSION.fetch_add(1, std::sync::atomic::Ordering::SeqCst);
                         w.crash_node(n);
                         if with_event {
                             let ip = w.cluster.nodes[n].ip;
@@ -139,6 +150,7 @@ async fn main(plan: Plan) -> Outcome {
                         w.cluster.nodes[n].host_id = host_id_for(n, generation);
                         w.fault(Fault::Topology);
                         w.log(&format!("replace node={n}"));
+                        TOPO_VERSION.fetch_add(1, std::sync::atomic::Ordering::SeqCst);
                         if with_event {
                             let ip = w.cluster.nodes[n].ip;
                             w.broadcast_event("TOPOLOGY_CHANGE", wire::body_event_topology("NEW_NODE", ip, 9042));
@@ -188,25 +200,56 @@ async fn main(plan: Plan) -> Outcome {
         let gaps: Vec<u64> = (0..6).map(|_| tape::range("c19:refresh_gap", 0, 3000) * MS).collect();
         handles.push(tokio::spawn(async move {
             let mut slow = Vec::new();
+            let mut stale: Vec<String> = Vec::new();
             let mut n = 0u64;
             for g in gaps {
                 world::sleep_ns(g).await;
                 let t = world::now_ns();
+                let v0 = TOPO_VERSION.load(std::sync::atomic::Ordering::SeqCst);
+                let ring0 = ring_now();
                 let r = tokio::time::timeout(Duration::from_secs(240), session.refresh_metadata()).await;
                 n += 1;
-                if r.is_err() {
-                    slow.push(t);
-                    break;
+                match r {
+                    Err(_) => {
+                        slow.push(t);
+                        break;
+                    }
+                    Ok(Ok(())) => {
+                        // An answered refresh: the published state reflects a fetch made
+                        // for it. If the ring did not change while it ran, that is exact.
+                        if TOPO_VERSION.load(std::sync::atomic::Ordering::SeqCst) == v0 {
+                            let published: BTreeSet<[u8; 16]> = session
+                                .get_cluster_state()
+                                .get_nodes_info()
+                                .iter()
+                                .map(|n| *n.host_id.as_bytes())
+                                .collect();
+                            if published != ring0 {
+                                stale.push(format!(
+                                    "refresh_metadata() called at {} ms returned Ok but the published state has {} nodes, the ring (unchanged during the call) has {} (missing {:?}, extra {:?})",
+                                    t / MS,
+                                    published.len(),
+                                    ring0.len(),
+                                    ring0.difference(&published).map(|h| h[4]).collect::<Vec<_>>(),
+                                    published.difference(&ring0).map(|h| h[4]).collect::<Vec<_>>()
+                                ));
+                            }
+                        }
+                    }
+                    Ok(Err(_)) => {}
                 }
             }
-            (n, slow)
+            (n, slow, stale)
         }));
     }
     let mut refreshes = 0u64;
     for h in handles {
         match h.await {
-            Ok((n, slow)) => {
+            Ok((n, slow, stale)) => {
                 refreshes += n;
+                for m in stale {
+                    out.violation("c19.published_state_stale", m);
+                }
                 for t in slow {
                     out.violation(
                         "c19.refresh_unanswered",
